@@ -78,7 +78,9 @@ func InitConstMaps(P *load.Program) {
 			_ = ok
 		}
 	}
-	isInit := func(fn *ssa.Function) bool { return fn.Name() == "init" && fn.Signature.Recv() == nil && fn.Parent() == nil }
+	isInit := func(fn *ssa.Function) bool {
+		return fn.Name() == "init" && fn.Signature.Recv() == nil && fn.Parent() == nil
+	}
 	var visit func(fn *ssa.Function)
 	seen := map[*ssa.Function]bool{}
 	visit = func(fn *ssa.Function) {
